@@ -9,6 +9,7 @@ from .vals import And, Not
 
 Z3_TIMEOUT_MS = int(os.environ.get('GIVC_Z3_TIMEOUT_MS', '6000'))
 CLI_TIMEOUT_S = int(os.environ.get('GIVC_CLI_TIMEOUT_S', '60'))
+HARD_TIMEOUT_S = int(os.environ.get('GIVC_HARD_TIMEOUT_S', '45'))
 
 
 class Result(object):
@@ -72,6 +73,29 @@ def check(assumes, guard, cond, name='', info='', want_model=True, use_cli=True,
     return Result(name, 'unknown', 'z3-api', time.time() - t0, info=info, reason=reason)
 
 
+def check_cli_only(assumes, guard, cond, name='', info=''):
+    """portfolio back ends on the SMT-LIB export (cvc5, then z3-new), each under a process-level time limit"""
+    t0 = time.time()
+    s = z3.Solver()
+    for a in assumes:
+        s.add(a)
+    s.add(guard)
+    s.add(Not(cond))
+    smt2 = s.to_smt2()
+    for backend, cmd in (('cvc5', ['/usr/bin/cvc5', '--strings-exp', '--tlimit=%d' % (CLI_TIMEOUT_S * 1000)]),
+                         ('z3-new', ['z3-new', '-T:%d' % CLI_TIMEOUT_S])):
+        smt2c = smt2.replace('(set-info :status unknown)', '(set-logic ALL)') if backend == 'cvc5' else smt2
+        try:
+            out = _cli(cmd, smt2c, CLI_TIMEOUT_S + 5)
+        except FileNotFoundError:
+            continue
+        if out == 'unsat':
+            return Result(name, 'unsat', backend, time.time() - t0, info=info)
+        if out == 'sat':
+            return Result(name, 'sat', backend, time.time() - t0, info=info, reason='model not imported from CLI back end')
+    return Result(name, 'unknown', 'portfolio', time.time() - t0, info=info, reason='no back end decided within the budget')
+
+
 def discharge(ex, obligations=None, only=None):
     """Check every obligation of an executor; also a vacuity check on the entry assumptions."""
     out = []
@@ -83,7 +107,54 @@ def discharge(ex, obligations=None, only=None):
     return out
 
 
+def run_forked(fn, timeout_s, default):
+    """run fn() in a forked child with a hard wall-clock limit; fn must return a small picklable value"""
+    import pickle
+    import select
+    import signal
+    rfd, wfd = os.pipe()
+    pid = os.fork()
+    if pid == 0:
+        try:
+            os.close(rfd)
+            data = pickle.dumps(fn())
+            os.write(wfd, data)
+        except BaseException:
+            pass
+        finally:
+            os._exit(0)
+    os.close(wfd)
+    out = default
+    ready, _, _ = select.select([rfd], [], [], timeout_s)
+    if ready:
+        chunks = b''
+        while True:
+            b = os.read(rfd, 65536)
+            if not b:
+                break
+            chunks += b
+        try:
+            out = pickle.loads(chunks)
+        except Exception:
+            out = default
+    else:
+        try:
+            os.kill(pid, signal.SIGKILL)
+        except OSError:
+            pass
+    os.close(rfd)
+    try:
+        os.waitpid(pid, 0)
+    except OSError:
+        pass
+    return out
+
+
 def vacuity(ex):
+    return run_forked(lambda: _vacuity(ex), 120, [('assumptions-consistent', 'unknown (time limit)')])
+
+
+def _vacuity(ex):
     """The conjunction of all assumptions with the function entry must be satisfiable, and the
     normal exit must be reachable (otherwise every postcondition holds vacuously)."""
     res = []
@@ -127,10 +198,56 @@ class Incremental(object):
         self.n = 0
 
     def check(self, ob):
+        """hard wall-clock budget: the query first runs in a forked child (z3's own timeout is not honoured by every
+        tactic); only verdicts reached within the budget count, a killed child means `unknown`."""
         t0 = time.time()
         while self.n < ob.n_assumes:
             self.s.add(self.ex.assumes[self.n])
             self.n += 1
+        import select
+        import signal
+        rfd, wfd = os.pipe()
+        pid = os.fork()
+        if pid == 0:
+            try:
+                os.close(rfd)
+                self.s.push()
+                self.s.add(ob.guard)
+                self.s.add(Not(ob.cond))
+                r = self.s.check()
+                os.write(wfd, str(r).encode())
+            except BaseException:
+                try:
+                    os.write(wfd, b'unknown')
+                except OSError:
+                    pass
+            finally:
+                os._exit(0)
+        os.close(wfd)
+        ready, _, _ = select.select([rfd], [], [], HARD_TIMEOUT_S)
+        verdict = 'unknown'
+        if ready:
+            verdict = os.read(rfd, 64).decode() or 'unknown'
+        else:
+            try:
+                os.kill(pid, signal.SIGKILL)
+            except OSError:
+                pass
+        os.close(rfd)
+        try:
+            os.waitpid(pid, 0)
+        except OSError:
+            pass
+        if verdict == 'unsat':
+            return Result(ob.name, 'unsat', 'z3-api', time.time() - t0, info=ob.info)
+        if verdict != 'sat':
+            r2 = check_cli_only(self.ex.assumes[:ob.n_assumes], ob.guard, ob.cond, ob.name, ob.info)
+            r2.seconds = time.time() - t0
+            return r2
+        # sat within the budget: repeat in-process to obtain the model
+        return self._check_inprocess(ob, t0)
+
+    def _check_inprocess(self, ob, t0):
         self.s.push()
         self.s.add(ob.guard)
         self.s.add(Not(ob.cond))
